@@ -778,10 +778,8 @@ func (tc *typechecker) typeof(expr ast.Expression, typeExpected bool) *typeInfo 
 		if typ.Type.Kind() != reflect.Interface && !types.Implements(typ.Type, t.Type) {
 			panic(tc.errorf(expr, "%s", tc.errTypeAssertion(typ.Type, t.Type)))
 		}
-		return &typeInfo{
-			Type:       typ.Type,
-			Properties: t.Properties & propertyAddressable,
-		}
+		// A type assertion is never addressable.
+		return &typeInfo{Type: typ.Type}
 
 	}
 
